@@ -737,7 +737,7 @@ inductive CompileResult
 /-- `compiler::compile(source, module_path)` with an explicit rule table. -/
 def compileWith (tbl : List Rule) (source : String) (modulePath : String) : CompileResult :=
   let toks := scanAll source
-  let fuel := 4 * toks.size + 64
+  let fuel := 16 * toks.size + 64
   let init : PState := { toks := toks, compilers := [Compiler.new .script ""], modulePath := modulePath }
   let prog : P (List Stmt) := do
     advance
